@@ -344,3 +344,61 @@ func runCacheStress(id string, parts []string) string {
 		return s
 	})
 }
+
+// cachesame: <id> keys=<n> g=<goroutines> rounds=<lookups per goroutine> vlen=<value octets>
+//   -> n=<lookups> miss=<lookups that missed> bad=<hits whose value is not the stored one>
+// A big cache (no eviction), long lifetimes: n keys are stored once; then g goroutines look the SAME keys up at the same
+// time.  Every lookup must hit and return the stored value: a repeat of a question is answered from the cache however
+// many lookups of that entry run beside it (the entry lock is a read lock for lookups).
+func init() { register("cachesame", 1, runCacheSame) }
+
+func runCacheSame(id string, parts []string) string {
+	f := hx.Fields(parts)
+	nk := hx.MustAtoi(f["keys"])
+	g := hx.MustAtoi(f["g"])
+	rounds := hx.MustAtoi(f["rounds"])
+	vlen := hx.MustAtoi(f["vlen"])
+	return guard(id, 60*time.Second, func() string {
+		c, err := cache.NewMemoryCache(1 << 24)
+		if err != nil {
+			return "HARNESS-ERROR " + err.Error()
+		}
+		defer c.Close()
+		keys := make([][]byte, nk)
+		vals := make([][]byte, nk)
+		for i := range keys {
+			keys[i] = []byte(fmt.Sprintf("same-key-%04d", i))
+			vals[i] = bytes.Repeat([]byte{byte(i + 1)}, vlen)
+			storeRaw(c, keys[i], vals[i], time.Hour, false)
+		}
+		time.Sleep(20 * time.Millisecond) // otter applies writes asynchronously
+		var miss, bad, n atomic.Int64
+		var wg sync.WaitGroup
+		start := make(chan struct{})
+		for k := 0; k < g; k++ {
+			wg.Add(1)
+			go func(k int) {
+				defer wg.Done()
+				<-start
+				for r := 0; r < rounds; r++ {
+					i := r % nk // every goroutine walks the keys in the same order: lookups of ONE entry overlap
+					kb := pool.CopyBuf(keys[i])
+					v, _, _ := c.Get(kb)
+					pool.ReleaseBuf(kb)
+					n.Add(1)
+					if v == nil {
+						miss.Add(1)
+						continue
+					}
+					if !bytes.Equal(v, vals[i]) {
+						bad.Add(1)
+					}
+					pool.ReleaseBuf(v)
+				}
+			}(k)
+		}
+		close(start)
+		wg.Wait()
+		return fmt.Sprintf("n=%d miss=%d bad=%d", n.Load(), miss.Load(), bad.Load())
+	})
+}
